@@ -201,6 +201,11 @@ open MpVerif.Gen.C03Writer in
 theorem C03_gen_header (h : Hdr) (o : Opts) : HStmt.toksL h o genHeader = wHeader h o := gen_header h o
 
 open MpVerif.Gen.C03Writer in
+/-- every header field the extracted statements mention is one the evaluator knows by name (its default `0` for unknown names
+    is never used): a field added to or renamed in `WriteNLHeader` breaks this -/
+theorem C03_gen_header_fields_known : (HStmt.fieldsL genHeader).all (fun n => knownFields.contains n) = true := by decide
+
+open MpVerif.Gen.C03Writer in
 /-- the header round trip, stated on the statements extracted from the source -/
 theorem C03_gen_header_roundtrip (cd : Codec) (o : Opts) (h : Hdr) (rest : List Tok) (hok : hdrOk h = true) :
     readHeader cd (HStmt.toksL h o genHeader ++ rest) = .ok (readBackHdr cd h o, rest) := by
@@ -281,6 +286,36 @@ def exModel : Model :=
     objs := [([], ⟨1, "o", [(1, ⟨false, 1024, 0⟩)], .opN 64 "pl" [.num ⟨false, 1023, 0⟩, .num Dbl.zero, .num ⟨false, 1024, 0⟩, .var 0 "x"]⟩)]
     colsz := [1] }
 
+/-! non-trivial instances of every hypothesis used above -/
+-- C03_opcode_facts: the hypothesis holds for every writer opcode, e.g.
+example : writerInfo 0 = some (kv_ADD, .binary) ∧ writerInfo 64 = some (kv_PLTERM, .plterm) ∧ writerInfo 65 = some (kv_IFSYM, .ifSym) := by decide
+-- C03_expr_roundtrip: grammar-conforming trees in each of the three positions (3 variables + 1 defined variable, 1 function)
+example : wfE ⟨4, 1⟩ .num (.op2 0 "+" (.var 3 "t") (.call 0 "f" [.num ⟨true, 1022, 0⟩, .str "a b", .op3 65 "ifs" (.num Dbl.zero) (.str "x") (.var 0 "")])) = true := by decide
+example : wfE ⟨4, 1⟩ .log (.op2 62 "atleast" (.num ⟨false, 1023, 0⟩) (.opN 59 "count" [.op2 23 "<=" (.var 0 "x") (.num Dbl.zero), .op1 34 "!" (.num Dbl.zero)])) = true := by decide
+example : wfE ⟨4, 1⟩ .sym (.str "only a string") = true ∧ wfE ⟨4, 1⟩ .num (.str "s") = false ∧ wfE ⟨4, 1⟩ .log (.var 0 "") = false := by decide
+example : wfE ⟨4, 1⟩ .num (.opN 64 "pl" [.num ⟨false, 1023, 0⟩, .num Dbl.zero, .num ⟨false, 1024, 0⟩, .var 0 "x"]) = true ∧
+          wfE ⟨4, 1⟩ .num (.opN 64 "pl" [.num ⟨false, 1023, 0⟩, .var 0 "x"]) = false := by decide
+-- C03_header_roundtrip / C03_gen_header_roundtrip: headers with and without logical constraints, complementarity, vbtol
+example : hdrOk exModel.hdr = true := by decide
+example : hdrOk { nv := 3, nac := 2, nlc := 0, ncc := 2, nnlcc := 1, ncdi := 1, nopts := 2, opts := [0, 3, 0, 0, 0, 0, 0, 0, 0], flags := 0, arith := 0 } = true := by decide
+-- C03_nput_packing / C03_nput_exact / C03_int_double_exact: valid doubles in each branch: 1 (short), 32768 (long), 2^31 (double), 0.5 (not an integer)
+example : (⟨false, 1023, 0⟩ : Dbl).Valid ∧ (⟨false, 1023, 0⟩ : Dbl).toInt? = some 1 ∧ (⟨false, 1038, 0⟩ : Dbl).toInt? = some 32768 ∧
+          (⟨true, 1054, 0⟩ : Dbl).toInt? = some (-2147483648) ∧ (⟨false, 1054, 0⟩ : Dbl).toInt? = some 2147483648 ∧
+          (⟨false, 1022, 0⟩ : Dbl).toInt? = none ∧ (⟨false, 0, 5⟩ : Dbl).Valid := by decide
+-- C03_number_text_eq_binary: the hypothesis on the codec is satisfiable (and is what g_fmt/strtod satisfy outside the boundary cases)
+example : ∀ x : Dbl, ((⟨Dbl.normZero, id⟩ : Codec).rd x).normZero = x.normZero := by
+  intro x; simp only [Dbl.normZero]; split <;> simp_all [Dbl.isZero, Dbl.zero]
+-- C03_bounds_partial: ordinary bounds [0, 1], [-∞, 1], [1, 1] with the exact codec
+example : (Dbl.zero.leNegMax = true → Dbl.zero = Dbl.negInf) ∧ ((⟨false, 1023, 0⟩ : Dbl).geMax = true → (⟨false, 1023, 0⟩ : Dbl) = Dbl.posInf) ∧
+          (Dbl.negInf.leNegMax = true → Dbl.negInf = Dbl.negInf) ∧ idCodec.rd Dbl.negInf = Dbl.negInf ∧ idCodec.rd Dbl.posInf = Dbl.posInf := by decide
+-- C03_header_partial / C03_vbtol_roundtrip: a header that carries vbtol
+example : let h : Hdr := { nopts := 3, opts := [2, 3, 3, 0, 0, 0, 0, 0, 0], vbtol := ⟨false, 1019, 4433230883192832⟩ }
+          (h.flags ≠ 0 ∨ h.arith ≠ 0) ∧ 2 ≤ h.nopts ∧ h.opts.length = 9 ∧ h.opts[1]? = some (3 : Int) ∧ idCodec.vb h.vbtol = h.vbtol := by decide
+-- C03_int_suffix_any_value: indices in range, values including INT_MIN and INT_MAX
+example : sparseOk 3 [(0, (-2147483648 : Int)), (2, 2147483647), (1, 0)] = true := by decide
+-- C03_call_zero_args: a context with one function
+example : (0 : Nat) < (⟨idCodec, 2, 3, 1⟩ : RCtx).nf := by decide
+-- C03_roundtrip: the feeder contract holds for a model with every kind of item, in text and binary, every option
 example : wellFormed exModel {} = true := by decide
 example : wellFormed exModel { binary := true, comments := true, boundsFirst := false, colSizes := 2 } = true := by decide
 
